@@ -23,7 +23,7 @@ import (
 //
 //	configurations: a non-validator non-witness node with other keys, wallet and OLTEST=1; a witness
 //	  that was restarted earlier (flag forced on); a witness whose job store is wiped after block k
-//	  (every k); a node whose tx index lags one block (on the history extended by a re-delivery of the
+//	  (every k); a node that was stopped and restarted after block k (every k); a node whose tx index lags one block (on the history extended by a re-delivery of the
 //	  target); the clock +400 days and another UUID node on every follower;
 //	map orders: this binary is built with the seam rewriter, so every `for range` over a Go map in the
 //	  application goes through verifseam.Order: the lead logs every dynamic occurrence with >= 2 keys
@@ -38,7 +38,7 @@ const c01Extra = 3
 
 type c01Job struct {
 	Scn     string
-	Variant string      // "outsider" | "witness-on" | "wipe-jobs" | "index-lag" | "seam" | "probe"
+	Variant string      // "outsider" | "witness-on" | "wipe-jobs" | "restart" | "index-lag" | "seam" | "probe"
 	K       int         // wipe-jobs: after this block index
 	Plan    map[int]int // seam: occurrence -> alternative
 }
@@ -94,6 +94,8 @@ func c01Exec(j c01Job) c01Res {
 	switch j.Variant {
 	case "outsider":
 		fid = harness.OutsiderIdentity()
+	case "restart":
+		fid = harness.NaturalIdentityOf(h.W.Vals[0])
 	case "witness-on", "wipe-jobs":
 		fid = harness.IdentityOf(h.W.Vals[0])
 		fid.IsWitness = true
@@ -143,6 +145,12 @@ func c01Exec(j c01Job) c01Res {
 		}
 		if j.Variant == "wipe-jobs" && i == j.K {
 			out.Jobs = wipeJobs(fol)
+		}
+		if j.Variant == "restart" && i == j.K {
+			// the second replica is a node that was stopped and started again after this block
+			if err := fol.CrashRestart(); err != nil {
+				return c01Res{Err: "restart: " + err.Error()}
+			}
 		}
 	}
 	if j.Variant == "probe" {
@@ -285,8 +293,8 @@ func c01(args []string) int {
 		list = append(list, c01Job{Scn: id, Variant: "outsider"}, c01Job{Scn: id, Variant: "witness-on"}, c01Job{Scn: id, Variant: "index-lag"})
 		cfgRuns += 3
 		for k := 0; k < len(h.Blocks)-c01Extra; k++ {
-			list = append(list, c01Job{Scn: id, Variant: "wipe-jobs", K: k})
-			cfgRuns++
+			list = append(list, c01Job{Scn: id, Variant: "wipe-jobs", K: k}, c01Job{Scn: id, Variant: "restart", K: k})
+			cfgRuns += 2
 		}
 		ps := points[id]
 		for _, p := range ps {
